@@ -1,10 +1,24 @@
 """print the prompt for a mutation-seeding sub-agent: python tools/seed_prompt.py C07 /tmp/seed/c07"""
 import json, sys
 pid, wt = sys.argv[1], sys.argv[2]
+wave = int(sys.argv[3]) if len(sys.argv) > 3 else 1
+first = 2 * wave - 1
+avoid = ""
+if wave > 1:
+    import glob, os
+    used = []
+    for d in sorted(glob.glob("/verif/seeded/%s-m*" % pid)):
+        try:
+            used.append("- " + json.load(open(os.path.join(d, "meta.json")))["summary"][:400].replace("\n", " "))
+        except Exception:
+            pass
+    if used:
+        avoid = "\nALREADY USED by earlier seeding rounds (do NOT repeat these ideas or close variants of them; pick different functions, different mechanisms and different triggering conditions):\n" + "\n".join(used) + "\n"
 for l in open('/verif/properties.jsonl'):
     p = json.loads(l)
     if p['id'] == pid:
         break
+second = first + 1
 print(f"""You are helping to evaluate a test/verification setup for the open-source project cherab-core (plasma spectroscopy modelling on Raysect; Cython + Python) by seeding realistic bugs.
 
 Your private scratch git worktree of the repository is {wt} (already built: the compiled .so files are in place). Work ONLY inside that directory. Do not read or touch /verif or /repo.
@@ -18,10 +32,10 @@ THE PROPERTY the project is supposed to guarantee:
 YOUR TASK: produce TWO independent source changes (different mechanisms, different files or functions if possible) to cherab-core that each BREAK this property, where each change:
   (a) still compiles: after editing a .pyx/.pxd run `cd {wt} && /venv/bin/python setup.py build_ext -j8 --inplace` (only edited modules rebuild; .py edits need no build);
   (b) still passes the repository's existing test suite: `cd {wt} && /venv/bin/python wt_python.py pytest cherab` must give the same result as without your change (579 tests pass on the unchanged tree; run the relevant test files first, the whole suite once at the end; `wt_python.py` makes `import cherab` resolve to this worktree instead of the installed copy — always run python code through it: `/venv/bin/python wt_python.py yourscript.py`);
-  (c) looks like a plausible slip or "optimisation" a developer could make, and needs something SPECIFIC to manifest: a particular multi-step sequence of operations, an unusual but legal input (edge of a range, special value, particular combination of options), state left over from an earlier call, or two cooperating sites that each look fine alone. NOT something the first ordinary use would expose, and not a crash on every call.
-For each change i in (1, 2) write into {wt}/_seed/m<i>/ :
+{avoid}  (c) looks like a plausible slip or "optimisation" a developer could make, and needs something SPECIFIC to manifest: a particular multi-step sequence of operations, an unusual but legal input (edge of a range, special value, particular combination of options), state left over from an earlier call, or two cooperating sites that each look fine alone. NOT something the first ordinary use would expose, and not a crash on every call.
+For each change i in ({first}, {second}) write into {wt}/_seed/m<i>/ :
   - patch.diff : `git diff` of the change against the worktree's HEAD (only source files, not build artefacts);
   - demo.py : a small stand-alone program (run as `/venv/bin/python wt_python.py _seed/m<i>/demo.py`) that exits 0 on the unchanged code and exits non-zero (assertion failure) with your change applied, demonstrating the property violation through the public API;
   - meta.json : {{"property": "{pid}", "summary": "...what was changed...", "needs_to_manifest": "...the specific input/sequence/state...", "files": [...], "ran": ["commands you ran and their outcome: build, relevant tests, full suite, demo with/without"]}}
-Procedure per change: make the edit; rebuild if needed; run demo (must fail); run relevant tests then the full suite (must pass as before); save `git diff > _seed/m<i>/patch.diff`; then `git checkout -- cherab` (and rebuild if a .pyx was touched) and confirm the demo passes on the clean tree before starting the next change. Leave the worktree clean (no source modifications) at the end, with only the _seed directory added.
+Always prefix python/pytest commands with `OPENBLAS_NUM_THREADS=1 OMP_NUM_THREADS=1` (wt_python.py also sets them). Procedure per change: make the edit; rebuild if needed; run demo (must fail); run relevant tests then the full suite (must pass as before); save `git diff > _seed/m<i>/patch.diff`; then `git checkout -- cherab` (and rebuild if a .pyx was touched) and confirm the demo passes on the clean tree before starting the next change. Leave the worktree clean (no source modifications) at the end, with only the _seed directory added.
 Final reply: for each change, one paragraph: what it breaks, what it needs to manifest, and the confirmation that build + full suite pass and demo fails/passes as required.""")
